@@ -225,6 +225,25 @@ def check_string(ctx, rng, rx):
         predefined = {r"^.*[^ ].*$": jt.NotEmptyStr, r"^[^@ ]+@[^@ ]+\.[^@ ]+$": jt.Email}
         _T[key] = predefined.get(rx) or restricted_string_type(name, rx)
     tp = _T[key]
+    keyi = ("si", rx)
+    if keyi not in _T and "(?i" not in rx:
+        # the same pattern compiled with a flag is another restriction: a type of its own, deciding by its own pattern object
+        try:
+            _T[keyi] = restricted_string_type(name + "_ic", re.compile(rx, re.IGNORECASE))
+        except ValueError as ex:
+            _T[keyi] = None
+            ctx.violation("restricted", "string/create/pattern-with-flags-refused-or-confused-with-the-plain-pattern", dict(regex=rx, error=str(ex)))
+        ctx.count("mon.restricted_string.flag_variants")
+    tpi = _T.get(keyi)
+    if tpi is not None:
+        for v in STR_CANDS:
+            expi = re.match(rx, v, re.IGNORECASE) is not None
+            oi = call(tpi, v)
+            ctx.count("mon.restricted_string.cast")
+            ctx.count("evaluations")
+            if oi.accepted != expi or (tpi is tp and expi != (re.match(rx, v) is not None)):
+                ctx.violation("restricted", f"string/cast/{'accepted' if oi.accepted else 'rejected'}-wrongly/pattern-with-flags", dict(regex=rx, flags="IGNORECASE", value=v, outcome=oi.brief()))
+                break
     p = parser_for(tp, key)
     ctx.distinct(("regex", rx))
     for v in STR_CANDS + [x for x in STR_INST if type(x) is not tp]:
